@@ -62,6 +62,8 @@ pub struct OpCtx {
     pub yield_mask: u64,
     pub check_acc: bool,
     pub log: StubLog,
+    /// query elements already claimed by callbacks on library worker threads
+    pub foreign_taken: Vec<bool>,
 }
 
 /// re-entrant calls are switched off for this process (the driver's answer to a tree on which a
@@ -71,11 +73,72 @@ pub static NO_NEST: std::sync::atomic::AtomicBool = std::sync::atomic::AtomicBoo
 /// callbacks that found no operation context on their thread
 pub static NOCTX_CALLBACKS: std::sync::atomic::AtomicU64 = std::sync::atomic::AtomicU64::new(0);
 
+/// the value index a callback on a library-internal worker thread writes with (its position in
+/// the sequence of callbacks is not reproducible, so it must not enter the values)
+pub const FOREIGN_CALL: u32 = u32::MAX;
+
+pub type SharedCtx = Arc<std::sync::Mutex<OpCtx>>;
+
 crate::tls! {
     /// the slot whose operation is executing on this thread (target of re-entrant calls)
     pub static CUR_SLOT: std::cell::Cell<Option<*const (dyn crate::slots::Slot + 'static)>> = const { std::cell::Cell::new(None) };
-    pub static OPCTX: RefCell<Option<OpCtx>> = const { RefCell::new(None) };
+    pub static OPCTX: RefCell<Option<SharedCtx>> = const { RefCell::new(None) };
     pub static BUILDLOG: RefCell<BuildLog> = RefCell::new(BuildLog::default());
+}
+
+/// Attribution of callbacks that arrive on threads the library started itself (a change that
+/// evaluates large batches in parallel): under engine A exactly one client thread runs at any time,
+/// and the library's workers only run while their parent is inside its call, so such a callback
+/// belongs to the operation of the thread that is running right now. The running thread publishes
+/// its context here (on starting an operation and whenever it gets the baton back). Engines B and
+/// C run clients freely; there the attribution would be a guess and is switched off.
+static CURRENT_OP: std::sync::Mutex<Option<SharedCtx>> = std::sync::Mutex::new(None);
+pub static FOREIGN_ATTRIB: std::sync::atomic::AtomicBool = std::sync::atomic::AtomicBool::new(false);
+
+fn set_current(c: Option<SharedCtx>) {
+    if FOREIGN_ATTRIB.load(std::sync::atomic::Ordering::Relaxed) {
+        *CURRENT_OP.lock().unwrap_or_else(|p| p.into_inner()) = c;
+    }
+}
+
+/// install `ctx` as the context of the operation executing on this thread; returns the previous one
+pub fn install_ctx(ctx: Option<OpCtx>) -> Option<SharedCtx> {
+    let shared = ctx.map(|c| Arc::new(std::sync::Mutex::new(c)));
+    set_current(shared.clone());
+    OPCTX.with(|c| c.replace(shared))
+}
+
+/// put back a context saved by `install_ctx`; returns the log of the one that was installed
+pub fn restore_ctx(prev: Option<SharedCtx>) -> Option<StubLog> {
+    set_current(prev.clone());
+    let cur = OPCTX.with(|c| c.replace(prev));
+    cur.map(|a| std::mem::take(&mut a.lock().unwrap_or_else(|p| p.into_inner()).log))
+}
+
+/// called by a client thread when it gets the baton back in the middle of an operation
+pub fn republish() {
+    if FOREIGN_ATTRIB.load(std::sync::atomic::Ordering::Relaxed) {
+        let mine = OPCTX.with(|c| c.borrow().clone());
+        set_current(mine);
+    }
+}
+
+/// run `f` on the context this callback belongs to; the flag says whether the callback arrived on
+/// a thread that is not the client's (a worker thread of the library)
+fn with_ctx<R>(f: impl FnOnce(&mut OpCtx, bool) -> R) -> Option<R> {
+    let mine = OPCTX.with(|c| c.borrow().clone());
+    if let Some(a) = mine {
+        let mut g = a.lock().unwrap_or_else(|p| p.into_inner());
+        return Some(f(&mut g, false));
+    }
+    if FOREIGN_ATTRIB.load(std::sync::atomic::Ordering::Relaxed) {
+        let cur = CURRENT_OP.lock().unwrap_or_else(|p| p.into_inner()).clone();
+        if let Some(a) = cur {
+            let mut g = a.lock().unwrap_or_else(|p| p.into_inner());
+            return Some(f(&mut g, true));
+        }
+    }
+    None
 }
 
 pub fn take_build_log() -> BuildLog {
@@ -147,13 +210,7 @@ enum Decision {
 
 /// bookkeeping common to the 1-D and 2-D callback: membership of the query, target shape, plan
 fn on_callback(e: &Expect, target_shape: &[usize], xb: u64, yb: u64) -> Decision {
-    OPCTX.with(|c| {
-        let mut c = c.borrow_mut();
-        let Some(ctx) = c.as_mut() else {
-            NOCTX_CALLBACKS.fetch_add(1, std::sync::atomic::Ordering::Relaxed);
-            return Decision::NoCtx;
-        };
-        let k = ctx.log.calls as usize;
+    let r = with_ctx(|ctx, foreign| {
         ctx.log.calls += 1;
         if ctx.log.seen.len() < 1024 {
             ctx.log.seen.push((xb, yb));
@@ -162,50 +219,71 @@ fn on_callback(e: &Expect, target_shape: &[usize], xb: u64, yb: u64) -> Decision
             ctx.log.violations.push(format!("interp_into: target shape {:?} != data shape minus interpolated axes {:?}", target_shape, e.trailing));
         }
         let mut hit = false;
+        let mut first_free = None;
+        let mut first_any = None;
         for (i, &(qx, qy)) in ctx.query.iter().enumerate() {
             if qx == xb && qy == yb {
                 hit = true;
                 if i < 64 {
                     ctx.log.received |= 1u64 << i;
                 }
+                first_any.get_or_insert(i);
+                if foreign && first_free.is_none() && !ctx.foreign_taken.get(i).copied().unwrap_or(false) {
+                    first_free = Some(i);
+                }
             }
         }
         if !hit {
             ctx.log.violations.push(format!("interp_into: received ({xb:#018x},{yb:#018x}) which is not an element (pair) of the query"));
         }
+        // which entry of the fault plan applies: the position in the sequence of callbacks - or,
+        // for a callback on a worker thread of the library (no reproducible sequence), the index
+        // of the query element it serves
+        let (k, call) = if foreign {
+            ctx.log.foreign_attributed += 1;
+            let i = first_free.or(first_any).unwrap_or(usize::MAX);
+            if let Some(t) = ctx.foreign_taken.get_mut(i) {
+                *t = true;
+            }
+            if i < 64 {
+                ctx.log.received_foreign |= 1u64 << i;
+            }
+            (i, FOREIGN_CALL)
+        } else {
+            let k = ctx.log.own_calls as usize;
+            ctx.log.own_calls += 1;
+            (k, k as u32)
+        };
         let act = ctx.plan.get(k).cloned().unwrap_or(Act::Ok);
-        let do_yield = (ctx.yield_mask >> (k % 64)) & 1 == 1;
-        Decision::Go { act, do_yield, check_acc: ctx.check_acc, call: k as u32 }
-    })
+        let do_yield = !foreign && (ctx.yield_mask >> (k % 64)) & 1 == 1;
+        Decision::Go { act, do_yield, check_acc: ctx.check_acc, call }
+    });
+    match r {
+        Some(d) => d,
+        None => {
+            NOCTX_CALLBACKS.fetch_add(1, std::sync::atomic::Ordering::Relaxed);
+            Decision::NoCtx
+        }
+    }
 }
 
 fn note_violation(s: String) {
-    OPCTX.with(|c| {
-        if let Some(ctx) = c.borrow_mut().as_mut() {
-            if ctx.log.violations.len() < 8 {
-                ctx.log.violations.push(s);
-            }
+    with_ctx(|ctx, _| {
+        if ctx.log.violations.len() < 8 {
+            ctx.log.violations.push(s);
         }
-    })
+    });
 }
 
 fn finish_callback(act: Act) -> Result<(), InterpolateError> {
     match act {
         Act::Ok | Act::Nest { .. } => Ok(()),
         Act::Err(tok) => {
-            OPCTX.with(|c| {
-                if let Some(ctx) = c.borrow_mut().as_mut() {
-                    ctx.log.tokens.push(tok.clone());
-                }
-            });
+            with_ctx(|ctx, _| ctx.log.tokens.push(tok.clone()));
             Err(InterpolateError::OutOfBounds(tok))
         }
         Act::Panic => {
-            OPCTX.with(|c| {
-                if let Some(ctx) = c.borrow_mut().as_mut() {
-                    ctx.log.panicked = true;
-                }
-            });
+            with_ctx(|ctx, _| ctx.log.panicked = true);
             panic!("stub-strategy-panic");
         }
     }
@@ -218,21 +296,25 @@ fn do_nest(at: u32, call: &Call) {
         return;
     }
     let Some(slot) = CUR_SLOT.with(|c| c.get()) else { return };
-    let outer = OPCTX.with(|c| c.borrow_mut().take());
-    let Some(outer) = outer else { return };
-    let nested_ctx = OpCtx { query: crate::slots::query_of(call), plan: vec![], yield_mask: outer.yield_mask.rotate_right(17), check_acc: outer.check_acc, log: StubLog::default() };
-    OPCTX.with(|c| *c.borrow_mut() = Some(nested_ctx));
+    // only from a callback running on the client's own thread
+    let Some(outer) = OPCTX.with(|c| c.borrow().clone()) else { return };
+    let (mask, acc) = {
+        let g = outer.lock().unwrap_or_else(|p| p.into_inner());
+        (g.yield_mask.rotate_right(17), g.check_acc)
+    };
+    let q = crate::slots::query_of(call);
+    let n = q.len();
+    let prev = install_ctx(Some(OpCtx { query: q, plan: vec![], yield_mask: mask, check_acc: acc, log: StubLog::default(), foreign_taken: vec![false; n] }));
     // Safety: see `slots::exec` - the slot outlives the operation whose callback we are in.
     // `Slot::call` catches unwinds itself.
     let mut out = unsafe { (*slot).call(call) };
-    if let Some(n) = OPCTX.with(|c| c.borrow_mut().take()) {
-        out.stub = n.log;
+    if let Some(log) = restore_ctx(prev) {
+        out.stub = log;
     }
-    let mut outer = outer;
-    if outer.log.nested.len() < 16 {
-        outer.log.nested.push(Nested { at, call: call.clone(), out });
+    let mut g = outer.lock().unwrap_or_else(|p| p.into_inner());
+    if g.log.nested.len() < 16 {
+        g.log.nested.push(Nested { at, call: call.clone(), out });
     }
-    OPCTX.with(|c| *c.borrow_mut() = Some(outer));
 }
 
 fn range_probes(axis: &[u64]) -> Vec<f64> {
@@ -313,6 +395,11 @@ where
                     note_violation(format!("index_point({i}).1 != data[{i}]"));
                 }
             }
+            // a user strategy may look the segment up as well (the result is C11's business, not
+            // checked here; the call is part of what a strategy legitimately does)
+            if !x.is_nan() {
+                let _ = it.get_index_left_of(x);
+            }
             let mut probes = range_probes(&e.x);
             probes.push(x);
             for p in probes {
@@ -323,24 +410,20 @@ where
         }
         if do_yield {
             if crate::sched::yield_now(crate::sched::SITE_CALLBACK) {
-                OPCTX.with(|c| {
-                    if let Some(ctx) = c.borrow_mut().as_mut() {
-                        ctx.log.yields += 1;
-                    }
-                });
+                with_ctx(|ctx, _| ctx.log.yields += 1);
             }
         }
         // a failing strategy has typically written part of its target already (lane-by-lane
         // evaluation that meets a gap): on a planned error or panic the first half of the lanes is
         // written before failing
         let n_write = if matches!(act, Act::Ok | Act::Nest { .. }) { usize::MAX } else { (target.len() + 1) / 2 };
-        if let Act::Nest { call: nc, write_first: false } = &act {
+        if let (Act::Nest { call: nc, write_first: false }, true) = (&act, call != FOREIGN_CALL) {
             do_nest(call, nc);
         }
         for (lane, t) in target.iter_mut().enumerate().take(n_write) {
             *t = enc(xb, 0, lane, call);
         }
-        if let Act::Nest { call: nc, write_first: true } = &act {
+        if let (Act::Nest { call: nc, write_first: true }, true) = (&act, call != FOREIGN_CALL) {
             do_nest(call, nc);
         }
         finish_callback(act)
@@ -426,6 +509,9 @@ where
                     }
                 }
             }
+            if !x.is_nan() && !y.is_nan() {
+                let _ = it.get_index_left_of(x, y);
+            }
             let mut px = range_probes(&e.x);
             px.push(x);
             for p in px {
@@ -443,21 +529,17 @@ where
         }
         if do_yield {
             if crate::sched::yield_now(crate::sched::SITE_CALLBACK) {
-                OPCTX.with(|c| {
-                    if let Some(ctx) = c.borrow_mut().as_mut() {
-                        ctx.log.yields += 1;
-                    }
-                });
+                with_ctx(|ctx, _| ctx.log.yields += 1);
             }
         }
         let n_write = if matches!(act, Act::Ok | Act::Nest { .. }) { usize::MAX } else { (target.len() + 1) / 2 };
-        if let Act::Nest { call: nc, write_first: false } = &act {
+        if let (Act::Nest { call: nc, write_first: false }, true) = (&act, call != FOREIGN_CALL) {
             do_nest(call, nc);
         }
         for (lane, t) in target.iter_mut().enumerate().take(n_write) {
             *t = enc(xb, yb, lane, call);
         }
-        if let Act::Nest { call: nc, write_first: true } = &act {
+        if let (Act::Nest { call: nc, write_first: true }, true) = (&act, call != FOREIGN_CALL) {
             do_nest(call, nc);
         }
         finish_callback(act)
